@@ -138,11 +138,17 @@ CURVED_SHAPES = {
 
 def curve_truth(segs, p):
     """exact membership of a concrete point in the region bounded by a closed chain of Bezier segments (concrete
-    control points): parity of the crossings of the ray y = p.y, x > p.x, each counted by z3 over the reals.
-    returns (inside, on_boundary_within_tolerance)"""
+    control points): parity of the crossings of a ray from p with the chain, each counted by z3 over the reals.
+    A ray that touches the curve tangentially (e.g. the horizontal ray through the top point of a circle) would be
+    miscounted, so three ray directions (1,0), (7,1), (11,-3) vote (the plane is sheared, which keeps membership)."""
+    votes = [_curve_parity(segs, p, k) for k in (F(0), F(1, 7), F(-3, 11))]
+    return sum(votes) >= 2
+
+
+def _curve_parity(segs, p, k):
     from oracles import bezier as BZ
 
-    px, py = F(p[0]), F(p[1])
+    px, py = F(p[0]), F(p[1]) - k * F(p[0])
     total = 0
     t1, t2, t3 = z3.Real("t1"), z3.Real("t2"), z3.Real("t3")
 
@@ -151,12 +157,12 @@ def curve_truth(segs, p):
 
     for s in segs:
         X = [q(c[0]) for c in s]
-        Y = [q(c[1]) for c in s]
+        Y = [q(F(c[1]) - k * F(c[0])) for c in s]
 
         def hit(t):
             return z3.And(t >= 0, t < 1, BZ.bernstein(Y, t) == q(py), BZ.bernstein(X, t) > q(px))
 
-        k = 0
+        kk = 0
         ts = [t1, t2, t3]
         for cnt in (3, 2, 1):
             sol = z3.Solver()
@@ -165,9 +171,9 @@ def curve_truth(segs, p):
             for a, b in zip(ts[:cnt], ts[1:cnt]):
                 sol.add(a < b)
             if sol.check() == z3.sat:
-                k = cnt
+                kk = cnt
                 break
-        total += k
+        total += kk
     return total % 2 == 1
 
 
